@@ -9,7 +9,7 @@ Local Open Scope res_scope.
 Definition base_of rho (t : texpr) : ent :=
   eadd (t_num t) (esum (map (fun s => e_of_nat (dimv rho s)) (t_dims t))).
 
-Lemma tval_fold tr c l r :
+Lemma tval_fold (tr : mexpr -> option ent) c l r :
   fold_right (fun e acc => match tr e, acc with Some x, Some y => Some (eadd x y) | _, _ => None end) (Some c) l = Some r <->
   exists xs, Forall2 (fun e x => tr e = Some x) l xs /\ r = eadd (esum xs) c.
 Proof.
@@ -65,7 +65,7 @@ Qed.
 (* ---------------------------------------------------------------- numbers of the form n * 1 *)
 Lemma e_of_nat_S n : e_of_nat (S n) = eadd (e_of_nat n) e1.
 Proof.
-  unfold e_of_nat, eadd, e1. cbn [fst snd]. f_equal; [|unfold qc0; ring].
+  apply ent_eq; unfold e_of_nat, eadd, e1; cbn [fst snd]; [|unfold qc0; ring].
   unfold Qcplus, qc1. apply Q2Qc_eq_iff. cbn [this Q2Qc].
   rewrite !Qred_correct. rewrite Nat2Z.inj_succ. unfold Z.succ. rewrite inject_Z_plus. reflexivity.
 Qed.
@@ -168,6 +168,13 @@ Proof.
   rewrite trace_of_mk. now apply trace_sound_sem.
 Qed.
 
+Lemma mapM_dget_noexn n v l c : mapM (fun i => dget n v i i) l <> ErrExn c.
+Proof.
+  induction l as [|x l IH]; cbn [mapM]; [discriminate|].
+  unfold dget at 1, rd. destruct (nth_error v (x * n + x)); cbn [bind oob]; [|discriminate].
+  destruct (mapM (fun i => dget n v i i) l); cbn [bind]; congruence.
+Qed.
+
 (* a DomainError of trace means that the value is not square *)
 Theorem trace_error_sound rho e : forall s,
   trace e = ErrExn EXN_DOMAIN -> shp rho e = Some s -> fst s <> snd s.
@@ -179,7 +186,8 @@ Proof.
     destruct (dim_diff_zero m n) eqn:E; try discriminate. now apply dim_diff_zero_TF.
   - apply shp_MDense_Some in Hs. destruct Hs as [_ ->]. cbn [fst snd].
     destruct (Nat.eqb_spec m n); [|assumption]. cbn [negb] in Ht.
-    destruct (mapM (fun i => dget n v i i) (seq 0 m)); discriminate.
+    destruct (mapM (fun i => dget n v i i) (seq 0 m)) eqn:E; cbn [bind] in Ht; try discriminate.
+    exfalso. eapply mapM_dget_noexn; eauto.
   - rewrite shp_MAdd in Hs. apply shape_all_Forall in Hs. destruct Hs as [_ Hall].
     revert Ht. generalize (t_of_num e0). induction ts as [|x ts IHts]; intros acc Ht; cbn [foldM] in Ht; [discriminate|].
     inversion IH; subst. inversion Hall; subst.
